@@ -80,7 +80,7 @@ def run_tlc_once(module, cfg, env=None, workers=16, timeout=900, simulate=None, 
     cfg_path = os.path.join(work, module + '.cfg')
     with open(cfg_path, 'w') as f:
         f.write(cfg)
-    props = []
+    props = ['-Djava.io.tmpdir=' + work]      # TLC unpacks its module archives into a temporary directory per run
     if deque:
         props.append('-Dtlc2.tool.queue.IStateQueue=StateDeque')
     cmd = ['java', '-XX:+UseParallelGC', '-Xmx' + jvm_mem] + props + [
